@@ -319,7 +319,18 @@ where
                 }
             }
             JSXElementName::JSXMemberExpr(expr) => Expr::JSXMember(expr.clone()),
-            JSXElementName::JSXNamespacedName(name) => Expr::JSXNamespacedName(name.clone()),
+            JSXElementName::JSXNamespacedName(name) => {
+                HANDLER.with(|handler| {
+                    handler.span_err(
+                        name.span,
+                        "Namespace tags are not supported. Vue's JSX doesn't have namespace semantics.",
+                    )
+                });
+                Expr::Lit(Lit::Str(quote_str!(format!(
+                    "{}:{}",
+                    name.ns.sym, name.name.sym
+                ))))
+            }
         }
     }
 
